@@ -108,7 +108,7 @@ package kms
 
 //@ func (*AWSKMS).EncryptKey
 //@   names a, ctx, keyBytes
-//@   facet C17, C10
+//@   facet C17, C10, C03
 //@   safety C17
 //@   opt no-frame
 //@   opt allow-go
